@@ -51,4 +51,30 @@ PROPERTIES = {
         "jobs": [J("C02_forces", quick={"cases": 1200, "shards": 16, "max_size": 60},
                    thorough={"cases": 25000, "shards": 16, "max_size": 100})],
     },
+    "C20": {
+        "rule": "rapidcheck: bounding box per axis from 1 to 40 voxels, extent an exact multiple of the voxel size or not, six position "
+                "classes (origin, straddling, integer and real offsets, +-1e4 voxels), voxel size 1e-7..1e3; stored and query points from "
+                "{lo, hi, one ulp inside, voxel boundaries, uniform, clusters in one voxel} plus the 8 corners; both uspg_4d and uspg_3d. "
+                "Non-trivial = extent is an exact multiple of the voxel size AND a point lies on a max face; distinct = hash of the case.",
+        "min_nontrivial": 500,
+        "assumptions": ["reference voxel index is only compared when the point is farther than 1e-9 voxel from a voxel boundary",
+                        "neighbourhood completeness is required for Euclidean distance <= voxel size (1 - 1e-9)",
+                        "uspg_3d keeps the last writer per voxel (documented in its header)"],
+        "jobs": [J("C20_grids", quick={"cases": 1500, "shards": 16, "max_size": 60},
+                   thorough={"cases": 60000, "shards": 16, "max_size": 100})],
+    },
+    "C03": {
+        "rule": "rapidcheck: 2-6 tiny cells of classes {epithelial, ecm, lumen, nucleus, static}, some with free slots made by a real "
+                "edge collapse, scale 1e-5..2.5, forces re-assigned before each of 1-5 steps, momenta assigned once, 0-8 mutual "
+                "couplings between distinct non-static cells (each node in at most one pair), dt / damping / density over 6 decades, "
+                "1..16 threads; built for contact models 0, 1, 2 and dynamic models 0, 1. Non-trivial = (a coupled pair, or contact "
+                "model 0 which has none) + a static cell + >= 2 steps; distinct = hash of the case.",
+        "min_nontrivial": 200,
+        "assumptions": ["uncoupled law compared at 16 eps of the magnitudes involved",
+                        "coupled pair: total momentum and displacement must be those of the documented law for SOME mass between the "
+                        "two node masses (the statement fixes conservation, not the mixing rule)",
+                        "couplings are mutual, as the contact models' own bookkeeping intends and the quantifier says"],
+        "jobs": [J("C03_integrate", v, quick={"cases": 700, "shards": 4, "max_size": 60}, thorough={"cases": 30000, "shards": 4, "max_size": 100})
+                 for v in ("san", "san-dm1", "san-cm0", "san-cm2")],
+    },
 }
